@@ -115,7 +115,7 @@ theorem C11_retry_complete (c : Cfg) (sv : List Srv) (picks : List Nat) (loc : L
 /-- If at least `want` of the writable services (counted by position in `sv`) answer 200 with at
 least one replica on every attempt, the write succeeds — whatever the other services answer (as
 long as no 200 answer carries a negative replica count), for every completion order. -/
-theorem C11_enough_acceptors (c : Cfg) (sv : List Srv) (picks : List Nat) (acc : Srv → Bool)
+theorem C11_enough_acceptors_partial (c : Cfg) (sv : List Srv) (picks : List Nat) (acc : Srv → Bool)
     (hacc : ∀ x k, acc x = true → (c.script x k).code = 200 ∧ 1 ≤ (c.script x k).rep)
     (hnn : ∀ x k, (c.script x k).code = 200 → 0 ≤ (c.script x k).rep)
     (hcount : c.want ≤ sv.countP acc) :
@@ -222,15 +222,16 @@ def c2 : Cfg := { want := 2, rps := 1, retries := 1, script := script1 }
 def c3 : Cfg := { c2 with want := 1 }
 def cAllFail : Cfg := { want := 2, rps := 0, retries := 2, script := fun _ _ => ⟨0, 0, []⟩ }
 
-/-- a successful write through a retry: services 0 and 1 first, 0 retried after its 500 -/
+/-- a failing write with one replica stored after a retry (0 retried after its 500, 1 refuses);
+a successful one when service 2 is there -/
 example : (put c2 [0, 1] [1, 0]).map (·.1) = some (.insufficient [65] 1) := by decide
 example : (put c2 [0, 2, 1] [0, 0]).map (·.1) = some (.ok [66] 2) := by decide
 example : (put c2 [0, 1, 2] [1, 0, 0]).map (fun r => (r.1, r.2.reqLog.reverse)) =
     some (.ok [66] 2, [(0, 0), (1, 0), (2, 0)]) := by decide
-/-- `C11_enough_acceptors`' hypotheses are satisfiable (service 2 is the acceptor), and so is
+/-- `C11_enough_acceptors_partial`'s hypotheses are satisfiable (service 2 is the acceptor), and so is
 `C11_ok_sound`'s with want > 0 -/
 example : ∃ loc n s, put c3 [0, 2, 1] [0, 0] = some (.ok loc n, s) ∧ 0 < c3.want := by
-  obtain ⟨loc, n, s, h⟩ := C11_enough_acceptors c3 [0, 2, 1] [0, 0] (fun x => x == 2)
+  obtain ⟨loc, n, s, h⟩ := C11_enough_acceptors_partial c3 [0, 2, 1] [0, 0] (fun x => x == 2)
     (by intro x k hx; have : x = 2 := by simpa using hx
         subst this; simp [c3, c2, script1])
     (by intro x k; simp only [c3, c2, script1]; split
